@@ -31,9 +31,21 @@ impl ReferentialIntegrity {
             return Ok(true);
         }
 
+        // Every term must itself be restricted to live entries. An inclusion only
+        // requires each term to match *something* in the index, and recycled entries
+        // and tombstones are still indexed by uuid: masking the union afterwards (as
+        // filter! does) lets a set of references pass as soon as ONE of them is live.
         let inner: Vec<_> = inner
             .iter()
-            .map(|u| f_eq(Attribute::Uuid, PartialValue::Uuid(*u)))
+            .map(|u| {
+                f_and(vec![
+                    f_eq(Attribute::Uuid, PartialValue::Uuid(*u)),
+                    f_andnot(f_or(vec![
+                        f_eq(Attribute::Class, EntryClass::Recycled.into()),
+                        f_eq(Attribute::Class, EntryClass::Tombstone.into()),
+                    ])),
+                ])
+            })
             .collect();
 
         // F_inc(lusion). All items of inner must be 1 or more, or the filter
